@@ -10,19 +10,22 @@ let n2i = int_of_nat
 let i2n = nat_of_int
 let loc b i = (i2n b, i2n i)
 
-let mk_state (blocks : cell list list) (k : int) : st =
-  let arr = Array.of_list (List.map Array.of_list blocks) in
+let mk_state_r (regs : (int * int) list) (blocks : cell list list) (k : int) : st =
+  let arr = Array.of_list (Stdlib.List.map Array.of_list blocks) in
   let nb = Array.length arr in
   let mem (l : loc) = let b = n2i (fst l) and i = n2i (snd l) in
     if b < nb && i < Array.length arr.(b) then arr.(b).(i) else Raw in
   let alive b = n2i b < nb in
   let bsize b = let b = n2i b in if b < nb then i2n (Array.length arr.(b)) else O in
   let rec sch k = if k <= 0 then [true] else false :: sch (k - 1) in
-  { hp = { mem = mem; alive = alive; bsize = bsize; next = i2n nb; regs = (fun _ -> O) };
+  let rg r = (try i2n (Stdlib.List.assoc (n2i r) regs) with Not_found -> O) in
+  { hp = { mem = mem; alive = alive; bsize = bsize; next = i2n nb; regs = rg };
     sched = (if k < 0 then [] else sch k); trace = [] }
 
-let lives base n = List.init n (fun j -> Live (i2n (base + j)))
-let raws n = List.init n (fun _ -> Raw)
+let mk_state = mk_state_r []
+let growcap n = if n <= 2 then 4 else 2 * n
+let lives base n = Stdlib.List.init n (fun j -> Live (i2n (base + j)))
+let raws n = Stdlib.List.init n (fun _ -> Raw)
 
 let sloc (l : loc) = Printf.sprintf "%d.%d" (n2i (fst l)) (n2i (snd l))
 let sev = function
@@ -37,13 +40,13 @@ let scell = function Raw -> "R" | Live v -> Printf.sprintf "L%d" (n2i v) | Moved
 let show (r : 'a res) (s : st) =
   let h = s.hp in
   let out = match r with Ok _ -> "Ok" | Exn -> "Exn" | Stuck -> "Stuck" in
-  let evs = String.concat " " (List.rev_map sev s.trace) in
+  let evs = String.concat " " (Stdlib.List.rev_map sev s.trace) in
   let nb = n2i h.next in
   let blk b =
     if h.alive (i2n b) then
-      Printf.sprintf "b%d[%s]" b (String.concat " " (List.init (n2i (h.bsize (i2n b))) (fun i -> scell (h.mem (loc b i)))))
+      Printf.sprintf "b%d[%s]" b (String.concat " " (Stdlib.List.init (n2i (h.bsize (i2n b))) (fun i -> scell (h.mem (loc b i)))))
     else Printf.sprintf "b%d-" b in
-  Printf.printf "%s | %s | %s\n" out evs (String.concat " " (List.init nb blk))
+  Printf.printf "%s | %s | %s\n" out evs (String.concat " " (Stdlib.List.init nb blk))
 
 let cat_of = function "N" -> NTM | "C" -> CPY | "T" -> THM | _ -> failwith "cat"
 let at b = fun j -> (i2n b, j)
@@ -70,6 +73,43 @@ let () = iter_lines (fun line ->
       let k = int_of_string k in
       let s = mk_state [[Live (i2n 5)]; raws 2; [Live (i2n 7)]] k in
       let (r, s') = ObjMgr.move_exec (cat_of c) (loc 0 0) (loc 1 0) (ObjMgr.creator_copy (loc 2 0) (loc 1 1)) s in
+      show r s'
+    | ["arrgrow"; c; n; k; newcap] ->
+      let n = int_of_string n and k = int_of_string k and newcap = int_of_string newcap in
+      let s = mk_state_r [(10, 0); (11, n); (12, n)] (if n = 0 then [] else [lives 100 n]) k in
+      let (r, s') = ArrayData.array_grow (cat_of c) (i2n newcap) s in
+      show r s'
+    | ["arraddback"; c; n; k] ->
+      let n = int_of_string n and k = int_of_string k in
+      (* block 0 = the argument item, block 1 = the array's storage (capacity n) *)
+      let s = mk_state_r [(10, 1); (11, n); (12, n)] ([Live (i2n 7)] :: (if n = 0 then [] else [lives 100 n])) k in
+      let (r, s') = ArrayData.array_addback_grow (cat_of c) (i2n (growcap n)) (ObjMgr.creator_copy (loc 0 0)) s in
+      show r s'
+    | ["copyctor"; c; n; k] ->
+      let n = int_of_string n and k = int_of_string k in
+      let s = mk_state [lives 100 n] k in
+      let (r, s') = Ctor.array_copy_ctor (at 0) (i2n n) s in
+      ignore c; show r s'
+    | ["intshrink"; c; n; k] ->
+      let n = int_of_string n and k = int_of_string k in
+      (* block 0 = the internal buffer (4 cells), block 1 = external storage of capacity 8 holding n items *)
+      let s = mk_state_r [(10, 1); (11, n); (12, 8)] [raws 4; lives 100 n @ raws (8 - n)] k in
+      let (r, s') = ArrayData.pv_reset_intcap (i2n 0) (i2n n) (i2n 77) (ArrayData.creator_relocate (cat_of c) (i2n n)) s in
+      (match r with
+       | Exn -> Printf.printf "cap=%d " (n2i (s'.hp.regs (i2n 12)))
+       | _ -> ());
+      show r s'
+    | ["kvreloc"; ck; _; k; cv] ->
+      let k = int_of_string k in
+      let s = mk_state [[Live (i2n 5)]; [Live (i2n 6)]; [Raw]; [Raw]] k in
+      let (r, s') = KeyValue.kv_relocate (cat_of ck) (cat_of cv) (loc 0 0) (loc 1 0) (loc 2 0) (loc 3 0) s in
+      show r s'
+    | ["kvcreate"; ck; _; k; mv] ->
+      let k = int_of_string k in
+      (* block 0 = key argument, block 1 = value argument, block 2 = new key, block 3 = new value *)
+      let s = mk_state [[Live (i2n 5)]; [Live (i2n 6)]; [Raw]; [Raw]] k in
+      let (r, s') = (if mv = "m" then KeyValue.kv_create_move (cat_of ck) (loc 0 0) (loc 2 0) (ObjMgr.creator_copy (loc 1 0)) (loc 3 0)
+                     else KeyValue.kv_create_copy (loc 0 0) (loc 2 0) (ObjMgr.creator_copy (loc 1 0)) (loc 3 0)) s in
       show r s'
     | _ -> print_endline "?"
   with e -> print_endline ("model-driver-error " ^ Printexc.to_string e))
